@@ -30,7 +30,13 @@ def chains(tier):
                 # a milestone behind a DATED container: the bound is the container's real span (roll-up of its children),
                 # not the dates typed on the container
                 for dated in ("end-late", "start-early", "both"):
-                    yield {"kind": "msc", "L": L, "m": m, "gap": gap, "onstart": onstart, "dated": dated}
+                    for onstart in (False, True):
+                        yield {"kind": "msc", "L": L, "m": m, "gap": gap, "onstart": onstart, "dated": dated}
+                # a milestone INSIDE a dated container (one and two levels down): the typed start reaches it by inheritance and is only
+                # a lower bound - its date is the later of that start and its dependency bound
+                for cstart in ("2025-01-06-10:30", "2025-01-07-11:00", "2025-01-06-09:00"):
+                    if True:
+                        yield {"kind": "msi", "L": L, "m": m, "gap": gap, "cstart": cstart}
                 # backward mirror: the milestone sits before a successor that starts mid-slot
                 yield {"kind": "msb", "L": L, "m": m, "gap": gap}
 
@@ -72,6 +78,19 @@ def to_spec(it):
             g["start"] = "2025-01-06-09:00"
         return {"res_min": L if L != 60 else None, "resources": [{"id": "r1"}, {"id": "r2"}],
                 "tasks": [g, {"id": "m", "milestone": True, "deps": [d]}, {"id": "after", "effort": 30, "alloc": ["r2"], "deps": ["m"]}]}
+    if k == "msi":
+        L = it["L"]
+        d = {"ref": "build"}
+        d2 = {"ref": "!!pack"}
+        if it["gap"]:
+            d["gap"] = it["gap"]
+            d2["gap"] = it["gap"]
+        rel = {"id": "rel", "start": it["cstart"], "children": [
+            {"id": "sign", "milestone": True, "deps": [d]},
+            {"id": "pack", "effort": 100, "alloc": ["r2"], "deps": ["build"]},
+            {"id": "qa", "children": [{"id": "done", "milestone": True, "deps": [d2]}, {"id": "chk", "effort": 30, "alloc": ["r2"], "deps": ["!done"]}]}]}
+        return {"res_min": L if L != 60 else None, "resources": [{"id": "r1"}, {"id": "r2"}],
+                "tasks": [{"id": "build", "effort": it["m"] + 200, "alloc": ["r1"]}, rel, {"id": "after", "effort": 30, "alloc": ["r1"], "deps": ["rel.sign"]}]}
     if k == "msb":
         L = it["L"]
         d = {"ref": "m"}
